@@ -3,7 +3,8 @@ import Casket.Spec.Load
 import Driver.Proto
 /-
 Streams of C08.
-  c08.seq  op1 op2 …     L:<kind> | V:<kind> | X      (kinds: harness/streams/c08.go)
+  c08.seq  op1 op2 …     L:<kind> | R:<kind> | V:<kind> | X      (kinds: harness/streams/c08.go; <kind>.h<N> = the kind
+                         with N `on` directives — the number of hooks a configuration registers is a free dimension)
      out = step|step|…   step = <res>;ls=<l1>.<l2>;hk=<hooks>;dv=<0|1>;s1=<probe>;s2=<probe>
   Port 3 is held by a foreign listener in every case.
 -/
@@ -23,7 +24,7 @@ def htSiteBob (v : String) : String := s!"O/200.404.401.404.404.id/abm.{v}"
 /-- a mistyped directive: the parser rejects the file; nothing has run -/
 def typos : List String := ["proxi", "basicaut", "rewrit", "gzi", "loggg", "tlss", "redri", "zzz"]
 
-def kindCfg (k : String) : Option Cfg :=
+def baseCfg (k : String) : Option Cfg :=
   if k.startsWith "ty-" then
     if typos.contains (k.drop 3).toString then some ⟨[⟨1, plain "A"⟩], 0, .parse⟩ else none
   else match k with
@@ -49,13 +50,29 @@ def kindCfg (k : String) : Option Cfg :=
   | "tlsM" => some ⟨[⟨1, plain "A"⟩], 1, .setupEarly⟩
   | "argL" => some ⟨[⟨1, plain "H"⟩], 1, .setupLate⟩
   | "logE" => some ⟨[⟨1, plain "H"⟩], 1, .startup⟩
+  -- MakeServers refuses (TLS and plain HTTP on one listener): after the directives, not reached by a validation
+  | "mux" => some ⟨[⟨1, plain "A"⟩], 1, .startup⟩
   | "busy3" => some ⟨[⟨3, plain "A"⟩], 0, .none⟩
   | "leak13" => some ⟨[⟨1, plain "A"⟩, ⟨3, plain "A"⟩], 1, .none⟩
   | "leak123" => some ⟨[⟨1, plain "B"⟩, ⟨2, plain "B"⟩, ⟨3, plain "B"⟩], 0, .none⟩
   | _ => none
 
+/-- kinds whose number of `on` directives can be chosen with the suffix `.h<N>`, N one decimal digit -/
+def hookable : List String := ["H1", "argE", "argL", "tlsM", "logE", "mux", "busy3", "leak13", "leak123"]
+
+def kindCfg (k : String) : Option Cfg :=
+  match k.splitOn ".h" with
+  | [b] => baseCfg b
+  | [b, n] =>
+    match n.toList with
+    | [d] =>
+      if hookable.contains b && d.isDigit then (baseCfg b).map fun c => { c with hooks := d.toNat - 48 } else none
+    | _ => none
+  | _ => none
+
 def parseOp (s : String) : Option Op :=
   if s.startsWith "L:" then (kindCfg (s.drop 2).toString).map .load
+  else if s.startsWith "R:" then (kindCfg (s.drop 2).toString).map .restart
   else if s.startsWith "V:" then (kindCfg (s.drop 2).toString).map .validate
   else if s = "X" then some .stop
   else none
